@@ -96,13 +96,17 @@ class ExactAlgorithmPulp(RankAggAlgorithm, PairwiseBasedAlgorithm):
                 bucket = {id_elements[elem]}
                 current_nb_def = nb_defeats
         ranking.append(bucket)
+        att = {ConsensusFeature.NECESSARILY_OPTIMAL: True,
+               ConsensusFeature.ASSOCIATED_ALGORITHM: self.get_full_name()}
+        # the value of the objective is None when the objective function is empty (e.g. only one element).
+        # In that case, the Kemeny score is not set and will be computed by the Consensus object if needed
+        objective_value = prob.objective.value()
+        if objective_value is not None:
+            att[ConsensusFeature.KEMENY_SCORE] = objective_value
         return Consensus(consensus_rankings=[Ranking(ranking)],
                          dataset=dataset,
                          scoring_scheme=scoring_scheme,
-                         att={ConsensusFeature.NECESSARILY_OPTIMAL: True,
-                              ConsensusFeature.ASSOCIATED_ALGORITHM: self.get_full_name(),
-                              ConsensusFeature.KEMENY_SCORE: prob.objective.value(),
-                              })
+                         att=att)
 
     @staticmethod
     def _add_pulp_variables(nb_elem: int, my_values: List[float],
